@@ -813,7 +813,31 @@ func main() {
 			}
 		}
 	}
-	// expander test vectors from the RFC (kept under corpus/) would go through HashWithDst below.
+	// expander test vectors of RFC 9380 (copies under corpus/rfc9380): the property's own predicate
+	for _, ev := range []struct{ file, kind string }{
+		{"xmd_sha256.json", "xmd-sha256"}, {"xmd_sha256_long_dst.json", "xmd-sha256"}, {"xmd_sha512.json", "xmd-sha512"},
+		{"xof_shake128.json", "xof-shake128"}, {"xof_shake128_long_dst.json", "xof-shake128"}, {"xof_shake256.json", "xof-shake256"}} {
+		var f struct {
+			Dst   string `json:"dst"`
+			Cases []struct {
+				Msg string `json:"msg"`
+				Len int    `json:"len_in_bytes"`
+				Out string `json:"uniform_bytes"`
+			} `json:"cases"`
+		}
+		b, err := os.ReadFile(filepath.Join(corpusDir, "rfc9380", ev.file))
+		if err != nil || json.Unmarshal(b, &f) != nil || a.Search {
+			continue
+		}
+		for ci, c := range f.Cases {
+			ec := expCase{kind: ev.kind, dst: []byte(f.Dst), msg: []byte(c.Msg), n: c.Len}
+			out, _ := runExpander(ec)
+			res.Count("expander-vector-"+ev.kind, ec.text(), true)
+			if out != strings.ToLower(c.Out) {
+				res.Mismatch(vh.Mismatch{ID: fmt.Sprintf("XV-%s-%d", ev.file, ci), Kind: "prop", Key: "expander-vector-" + ev.kind, Detail: "RFC 9380 expander vector: got " + trunc(out) + " want " + trunc(c.Out), Case: "X " + ec.text(), PropFail: true, What: "RFC 9380 expand_message agreement"})
+			}
+		}
+	}
 
 	// 4. hash to curve: RFC vectors, determinism, DST dependence, subgroup
 	for _, s := range suites() {
